@@ -198,7 +198,7 @@ def _run(ctx, w):
             if d[0] == "discr" and d[1][0] == "call" and d[1][1].endswith("::cmp") and d[1][2] == (("ref", False, newc), ("ref", False, cols_t)):
                 want = 255 if nm == "contract" else 1
                 for v, tgt in t["targets"]:
-                    if v == want and b.edge_controls((blk, tgt), cs.point[0]):
+                    if v == want and b.edge_controls((blk, tgt), cs.point[0]) and b.every_path_to_return_hits((tgt, 0), {cs.point}, include_start=True):
                         ok = True
         ctx.check(ok, "Z3", nm + ":arm", "%s is not executed exactly when the new width is %s than the current one" % (nm, "smaller" if nm == "contract" else "larger"), loc=w.site_loc(cs))
     ctx.floor("Z3", 6, "resize/tab obligations")
@@ -241,6 +241,17 @@ def _run(ctx, w):
         ext = [cs for cs in E.call_sites(fn) if not cs.local and any(len(p) >= 3 and p[0] == "arg1" and p[1] == tabs_f for p in cs.W)
                and (w.facts.fns.get(fn, {}).get("impl_self") or {}).get("adt") == S.term_ty]
         ctx.check(not direct and not ext, "Z5", "writer:" + fn, "%s edits the tab-stop vector directly" % fn, loc=w.fn_loc(fn)) if (direct or ext) else None
+    # who may change the stops at all: HTS / CTC / TBC, a width change, the full reset and the constructor - nothing else (not DECSTR)
+    allowed = set(w.handler_reach("Hts")) | set(w.handler_reach("Ctc")) | set(w.handler_reach("Tbc")) | set(w.handler_reach("Ris")) | {S.resize_fn}
+    for fn in sorted(w.bodies):
+        if S._impl_of(fn) != S.term_ty:
+            continue
+        is_ctor = any(s_["k"] == "assign" and s_["rv"]["k"] == "aggregate" and s_["rv"].get("adt") == S.term_ty for bl in w.body(fn).blocks for s_ in bl["stmts"])
+        wr = [pt for pt, ps in E.stmt_writes[fn].items() if any(p[:2] == ("arg1", tabs_f) for p in ps)]
+        wr += [cs.point for cs in E.call_sites(fn) if any(p[:2] == ("arg1", tabs_f) for p in cs.W) and (not cs.local or S._impl_of(cs.callee) != S.term_ty)]
+        if wr and not is_ctor:
+            ctx.check(fn in allowed, "Z5", "who:" + fn, "%s changes the tab stops; only HTS/CTC/TBC, a width change and the full reset may (a soft reset keeps them)" % fn, loc=w.stmt_loc(fn, wr[0]),
+                      sample={"fn": fn})
     ctx.ok("Z5", "writers", {"tabs_methods": sorted(fns)})
     setter = unsetter = None
     for fn in fns:
